@@ -8,8 +8,10 @@ import (
 	"sort"
 	"strings"
 	"sync"
+	"testing"
 
 	"verif/h/crashfs"
+	"verif/h/ev"
 )
 
 // Second finding of the multi-session histories (reported to the lead; the input
@@ -88,6 +90,9 @@ func tailOpen() bool {
 	if witnessing.Load() {
 		return false
 	}
+	if !findingListed(tailKey) {
+		return false // not listed as open in $VERIF_KNOWN: the check stays strict
+	}
 	tailOnce.Do(func() {
 		witnessing.Store(true)
 		defer witnessing.Store(false)
@@ -107,4 +112,27 @@ func tailOpen() bool {
 		}
 	})
 	return tailActive
+}
+
+// TestRegressTornStateLogTail replays the witness of "fixed: property=C33 2099651" strictly:
+// an offset commit acknowledged after a recovery that found a torn groups.log tail must
+// survive the next crash.
+func TestRegressTornStateLogTail(t *testing.T) {
+	witnessing.Store(true)
+	msg := witnessRun(func(t tb) {
+		e := runHistoryOpt(t, tailWitness, true)
+		defer e.p.done()
+		h := e.m.Commits[commitKey("h", "a", 0)]
+		if len(h) != 1 {
+			t.Fatalf("VERIF-INFRA: tail witness did not record the second session's commit")
+			return
+		}
+		report(t, e.eval(Case{K: h[0].Ack}, false, false))
+	})
+	witnessing.Store(false)
+	ev.Case("regress-torn-state-log-tail", true)
+	ev.Class("regression-replays")
+	if msg != "" {
+		t.Fatalf("%s", msg)
+	}
 }
